@@ -43,6 +43,7 @@ def install_wrappers():
     for b in BACKENDS:
         if b not in TenalgBackend._available_tenalg_backends:
             importlib.import_module(f"tensorly.tenalg.{b}_tenalg")
+    changed = False
     for b in BACKENDS:
         cls = TenalgBackend._available_tenalg_backends[b]
         for name in FUNS:
@@ -59,6 +60,11 @@ def install_wrappers():
             wrapper.__name__ = getattr(func, "__name__", name)
             wrapper.__doc__ = getattr(func, "__doc__", None)
             setattr(cls, name, staticmethod(wrapper))
+            changed = True
+    if changed:
+        # public API for "backend methods were (re-)registered": rebuilds the tenalg.<fn> dispatchers, so that the
+        # wrappers are seen even by an implementation that would bind functions when the dispatchers are created
+        tensorly.tenalg.use_dynamic_dispatch()
 
 
 # ------------------------------------------------------------------------------------------ values
@@ -150,7 +156,7 @@ class Runner:
             return None, False
         if impl in BACKENDS:
             if not TRACE or TRACE[0] != (impl, fn):
-                viol(ctx, f"tenalg.dispatch/{fn}/selected-{impl}",
+                viol(ctx, f"tenalg.dispatch/{fn}/selected-{impl}" + ("" if TRACE else ",unidentified-implementation"),
                      lambda: f"{desc()}: after tenalg.set_backend({impl!r}) tenalg.{fn} entered {TRACE[:1]}")
         try:
             arr = np.asarray(res)
@@ -329,7 +335,8 @@ def inner_cases(fam, item, tier, seed):
         k = len(mats)
         for skip in [None] + list(range(k)):
             if k == 1 and skip is not None:
-                continue  # nothing would remain: outside the documented domain
+                yield dict(base, guard="kronecker-nothing-remains-after-skip")  # outside the documented domain
+                continue
             for rev in (False, True):
                 for cplx in (False, True):
                     yield dict(base, mats=mats, skip=skip, rev=rev, cplx=cplx)
@@ -338,7 +345,8 @@ def inner_cases(fam, item, tier, seed):
         k = len(rows)
         for skip in [None] + list(range(k)):
             rem = k - (skip is not None)
-            if rem == 0 or (rank == 0 and rem < 2):
+            if rem == 0 or (rank == 0 and rem < 2):  # outside the documented domain (empty list / one 1-D operand)
+                yield dict(base, guard="khatri_rao-nothing-remains-after-skip" if rem == 0 else "khatri_rao-single-1D-operand")
                 continue
             for w in (False, True):
                 for m in (False, True):
@@ -397,6 +405,7 @@ def inner_cases(fam, item, tier, seed):
         for ns in (1, 2, 3):
             rem = [r for i, r in enumerate(rows) if i != skip]
             if ns > 1 and int(np.prod(rem)) ** ns > cap:
+                yield dict(base, guard="sample_khatri_rao-indices-lists-beyond-tier-bound")
                 continue
             for cplx in (False, True):
                 yield dict(base, rows=rows, rank=rank, skip=skip, ns=ns, cplx=cplx)
@@ -520,7 +529,7 @@ def run_khatri_rao(case, rn):
         klass += ",weights"
     if m:
         klass += ",mask"
-    if skip is not None and len(rem) > 1:
+    if skip is not None and klass == "multi":
         klass += ",skip"
     desc = lambda: (f"khatri_rao([{'; '.join(brief(x) for x in ms)}], weights={None if weights is None else weights.tolist()}, "
             f"skip_matrix={skip}, mask={None if mask is None else brief(mask)})")
@@ -744,7 +753,7 @@ def run_moment(case, rn):
             ctx.outcome("higher_order_moment:raised")
             continue
         if not TRACE or TRACE[0] != (impl, "higher_order_moment"):
-            viol(ctx, f"tenalg.dispatch/higher_order_moment/selected-{impl}",
+            viol(ctx, f"tenalg.dispatch/higher_order_moment/selected-{impl}" + ("" if TRACE else ",unidentified-implementation"),
                  lambda: f"{desc()}: entered {TRACE[:1]}")
         if res.shape != ref.shape:
             viol(ctx, f"{site}/shape/{klass}",
@@ -797,7 +806,9 @@ class C02(Check):
 
     def groups(self, tier, seed):
         qi = 0 if tier == "quick" else 1
-        return [{"fam": fam, "part": k, "of": PARTS[fam][qi]} for fam in FAMS for k in range(PARTS[fam][qi])]
+        gs = [{"fam": fam, "part": k, "of": PARTS[fam][qi]} for fam in FAMS for k in range(PARTS[fam][qi])]
+        order = ["multi_mode_dot", "tensordot", "khatri_rao", "mttkrp"] + [f for f in FAMS if f not in ("multi_mode_dot", "tensordot", "khatri_rao", "mttkrp")]
+        return sorted(gs, key=lambda g: (g["part"], order.index(g["fam"])))  # families interleaved (evidence samples, load balance)
 
     def cases(self, group, tier, seed):
         fam, part, of = group["fam"], group["part"], group["of"]
@@ -811,6 +822,10 @@ class C02(Check):
         install_wrappers()
         prev = tenalg.get_backend()
         rn = Runner(ctx, case)
+        if "guard" in case:  # lattice point outside the domain the statement / docstrings cover: counted, not executed
+            ctx.count("guarded_out:" + case["guard"])
+            ctx.outcome("guarded_out")
+            return
         try:
             nontrivial = RUNNERS[case["fam"]](case, rn)
         finally:
@@ -820,7 +835,7 @@ class C02(Check):
         else:
             ctx.count("trivial_cases")
         ctx.evaluations += max(rn.calls - 1, 0)  # evaluations = library calls
-        if not ctx.samples:
+        if nontrivial and not ctx.samples and ctx.evaluations % 7 == 0:
             ctx.sample({"case": case, "library_calls": rn.calls})
 
 
